@@ -1,4 +1,5 @@
-// unigen_tl2x writes uni.UniverseTL2X() (extra universe of the TL2-side checks) as TL1 text.
+// unigen_tl2x writes uni.UniverseTL2X() (extra universe of the TL2-side checks) as TL1 text, or with -native
+// uni.UniverseTL2N() (TL2-native types: reserved `_` fields, bit arrays) as TL2 source text.
 package main
 
 import (
@@ -11,7 +12,17 @@ import (
 
 func main() {
 	out := flag.String("out", "", "output .tl file")
+	native := flag.Bool("native", false, "write uni.UniverseTL2N() as TL2 source text instead")
 	flag.Parse()
+	if *native {
+		n := uni.UniverseTL2N()
+		if err := os.WriteFile(*out, []byte(n.TextTL2()), 0o644); err != nil {
+			fmt.Fprintln(os.Stderr, err)
+			os.Exit(2)
+		}
+		fmt.Printf("universe tl2n (TL2-native): %d declarations, %d top-level items\n", len(n.Structs), len(n.Tops))
+		return
+	}
 	s := uni.UniverseTL2X()
 	if err := os.WriteFile(*out, []byte(s.Text()), 0o644); err != nil {
 		fmt.Fprintln(os.Stderr, err)
